@@ -418,8 +418,9 @@ def run(pid, tier, seed, replay=None):
                           "claims end at the first step that returns Err or panics (what run / step report after a "
                           "failed run is not part of the statement)"] + common
     else:
-        ck.assumptions = ["healthy link with a fixed latency of a whole number of ticks, fail_rate 0, registration "
-                          "host order (the twin comparison needs it, DESIGN 6 C04)",
+        ck.assumptions = ["healthy link, every message has a latency of a whole number of ticks (the Builder's value or "
+                          "the one set with Sim::set_link_latency between steps, so segments may overtake each "
+                          "other), fail_rate 0, registration host order (the twin comparison needs it, DESIGN 6 C04)",
                           "protocol pair: one listener / one connector, 1-byte segments, at most one pending operation "
                           "per kind and stream, operations on a stream start in a later turn than the one that handed "
                           "it over; the listener queue is kept below its capacity (a full queue is a documented panic)",
